@@ -12,7 +12,7 @@ import (
 func timedName(c timed.Cfg) string {
 	switch c.Kind {
 	case "emit":
-		return fmt.Sprintf("emit cap=%d freq=%d mode=%s mask=%b gaps=%v cancel-at=%d drain=%v", c.Cap, c.Freq, c.Mode, c.Mask, c.ConsGaps, c.CancelAt, c.Drain)
+		return fmt.Sprintf("emit cap=%d freq=%d mode=%s mask=%b gaps=%v cancel-at=%d drain=%v%s", c.Cap, c.Freq, c.Mode, c.Mask, c.ConsGaps, c.CancelAt, c.Drain, map[bool]string{true: " errors-unread"}[c.NoErr])
 	case "unfold":
 		return fmt.Sprintf("unfold cap=%d step=%s gaps=%v cancel-at=%d drain=%v", c.Cap, c.Step, c.ConsGaps, c.CancelAt, c.Drain)
 	}
@@ -184,6 +184,11 @@ func c11Scenarios(tier string) []e1lib.Scenario {
 					gaps := []int{g, g, g, g, g, g}
 					add(timed.Cfg{Kind: "emit", Cap: cp, Freq: f, Mode: "pure", ConsGaps: gaps, CancelAt: at})
 					add(timed.Cfg{Kind: "emit", Cap: cp, Freq: f, Mode: "try", Mask: 0b0101, ConsGaps: gaps, CancelAt: at})
+					if g == 0 {
+						// nobody reads the error channel: the generator may wait for ever with its error, but it must stop at the cancel
+						add(timed.Cfg{Kind: "emit", Cap: cp, Freq: f, Mode: "try", Mask: 0b0101, ConsGaps: gaps, CancelAt: at, NoErr: true})
+						add(timed.Cfg{Kind: "emit", Cap: cp, Freq: f, Mode: "try", Mask: 0b1111, ConsGaps: gaps, CancelAt: at, NoErr: true})
+					}
 				}
 			}
 			add(timed.Cfg{Kind: "emit", Cap: cp, Freq: f, Mode: "lift", Mask: 0b0100, ConsGaps: []int{0, 0, 0, 0}, CancelAt: -1})
@@ -202,6 +207,6 @@ func c11Scenarios(tier string) []e1lib.Scenario {
 
 func propC11() drv.Property {
 	return table("C11",
-		"one case = Emit (cap 0..2, frequency 1 or 3 ticks, Pure / Try with every failing subset of indices 0..3 / Lift) or Unfold (cap 0..2, step +1 / x2 / constant) x consumer receive schedule (every script of gaps over {0, f, 2f} up to 3 (5) receives, after which the consumer cancels) x cancel by a separate thread at every clock grid point 0..4f+1; virtual clock, every interleaving at equal instants explored; plus liveness scenarios in which the consumer keeps receiving after it cancelled, explored under the restriction that an enabled Done arm of a cancelled context is taken at once (an execution reaching the 400-step horizon there means the generator does not consult the context); non-trivial = script of at least two receives",
+		"one case = Emit (cap 0..2, frequency 1 or 3 ticks, Pure / Try with every failing subset of indices 0..3 / Lift) or Unfold (cap 0..2, step +1 / x2 / constant) x consumer receive schedule (every script of gaps over {0, f, 2f} up to 3 (5) receives, after which the consumer cancels) x cancel by a separate thread at every clock grid point 0..4f+1 (also with an error channel nobody reads); virtual clock, every interleaving at equal instants explored; plus liveness scenarios in which the consumer keeps receiving after it cancelled, explored under the restriction that an enabled Done arm of a cancelled context is taken at once (an execution reaching the 400-step horizon there means the generator does not consult the context); non-trivial = script of at least two receives",
 		append(commonAssumptions, "time is the virtual clock of rt: it advances only when no thread can run (the rule of testing/synctest); real-time jitter is not modelled"), c11Scenarios)
 }
